@@ -1,14 +1,406 @@
 package interp
 
+// Cooperative scheduler (DESIGN §2.7): every interpreted goroutine runs on its
+// own host goroutine under a baton — exactly one runs at a time. At every
+// scheduling point (go, channel operations, select, mutex/RWMutex
+// lock/unlock, WaitGroup, Cond, sync/atomic, verifrt.Yield) the next thread is
+// a decision of the path (machine.choose), so schedules are explored by the
+// same decision-prefix search as data branches, within a preemption bound.
+// Deadlock (no enabled thread while some thread is unfinished) is a violation.
+
 import (
 	"crypto/sha256"
+	"fmt"
+	"go/token"
+	"go/types"
 	"os"
-)
 
-func newCoopSched(m *machine, i *interpreter) scheduler {
-	panic(engineError("cooperative scheduler not built"))
-}
+	"golang.org/x/tools/go/ssa"
+)
 
 var debugProgress = os.Getenv("SYMGO_PROGRESS") != ""
 
 func sha256Sum(b []byte) [32]byte { return sha256.Sum256(b) }
+
+type thread struct {
+	id    int
+	wake  chan struct{}
+	done  bool
+	ready func() bool // nil when runnable; otherwise the condition it waits for
+	what  string
+}
+
+type coopSched struct {
+	m           *machine
+	i           *interpreter
+	threads     []*thread
+	cur         *thread
+	preemptLeft int
+	abort       any  // panic value raised in a non-main thread, to be re-raised in main
+	dead        bool // the path is over: parked threads must unwind
+	wg          map[*value]int
+	condWaiters map[*value][]*thread
+	signaled    map[*thread]bool
+	switches    int
+}
+
+func newCoopSched(m *machine, i *interpreter) scheduler {
+	s := &coopSched{m: m, i: i, preemptLeft: m.h.Preempt, wg: map[*value]int{}, condWaiters: map[*value][]*thread{}, signaled: map[*thread]bool{}}
+	if s.preemptLeft == 0 {
+		s.preemptLeft = 2
+	}
+	return s
+}
+
+func (s *coopSched) runMain(f func()) {
+	main := &thread{id: 0, wake: make(chan struct{}, 1)}
+	s.threads = []*thread{main}
+	s.cur = main
+	defer func() {
+		// release every parked thread
+		s.dead = true
+		for _, t := range s.threads {
+			if t != main && !t.done {
+				select {
+				case t.wake <- struct{}{}:
+				default:
+				}
+			}
+		}
+	}()
+	f()
+}
+
+func (s *coopSched) enabled(t *thread) bool {
+	return !t.done && (t.ready == nil || t.ready())
+}
+
+// park blocks the calling thread until it is given the baton again.
+func (s *coopSched) park(self *thread) {
+	<-self.wake
+	if s.dead {
+		panic(schedAbort{"path ended"})
+	}
+	if self.id == 0 && s.abort != nil {
+		p := s.abort
+		s.abort = nil
+		panic(p)
+	}
+}
+
+// reschedule picks the next thread to run. selfBlocked: the caller cannot continue now.
+func (s *coopSched) reschedule(selfBlocked bool) {
+	self := s.cur
+	var cands []*thread
+	if !selfBlocked && s.enabled(self) {
+		cands = append(cands, self)
+	}
+	for _, t := range s.threads {
+		if t != self && s.enabled(t) {
+			cands = append(cands, t)
+		}
+	}
+	if len(cands) == 0 {
+		if selfBlocked {
+			msg := fmt.Sprintf("deadlock: all goroutines are blocked (thread %d waits for %s)", self.id, self.what)
+			if self.id == 0 {
+				panic(fatalError(msg))
+			}
+			s.abort = fatalError(msg)
+			s.handOver(self, s.threads[0])
+			return
+		}
+		return
+	}
+	next := cands[0]
+	if len(cands) > 1 {
+		if cands[0] == self && s.preemptLeft <= 0 {
+			next = self
+		} else {
+			k := s.m.choose(len(cands))
+			next = cands[k]
+			if cands[0] == self && next != self {
+				s.preemptLeft--
+			}
+		}
+	}
+	if next == self {
+		return
+	}
+	s.handOver(self, next)
+}
+
+func (s *coopSched) handOver(self, next *thread) {
+	s.switches++
+	s.cur = next
+	next.wake <- struct{}{}
+	s.park(self)
+	s.cur = self
+}
+
+// block waits until cond holds.
+func (s *coopSched) block(what string, cond func() bool) {
+	self := s.cur
+	for !cond() {
+		self.ready, self.what = cond, what
+		s.reschedule(true)
+	}
+	self.ready, self.what = nil, ""
+}
+
+func (s *coopSched) yield(what string) { s.reschedule(false) }
+
+func (s *coopSched) lock(p *value, shared bool) {
+	s.yield("lock")
+	m := s.m
+	if shared {
+		s.block("RLock", func() bool { return m.locks[p] >= 0 })
+		m.locks[p]++
+		return
+	}
+	s.block("Lock", func() bool { return m.locks[p] == 0 })
+	m.locks[p] = -1
+}
+
+func (s *coopSched) unlock(p *value, shared bool) {
+	m := s.m
+	if shared {
+		if m.locks[p] <= 0 {
+			panic(fatalError("sync: RUnlock of unlocked RWMutex"))
+		}
+		m.locks[p]--
+	} else {
+		if m.locks[p] != -1 {
+			panic(fatalError("sync: unlock of unlocked mutex"))
+		}
+		m.locks[p] = 0
+	}
+	s.yield("unlock")
+}
+
+func (s *coopSched) tryLock(p *value) bool {
+	s.yield("trylock")
+	if s.m.locks[p] != 0 {
+		return false
+	}
+	s.m.locks[p] = -1
+	return true
+}
+
+func (s *coopSched) wgAdd(p *value, d int) {
+	s.wg[p] += d
+	if s.wg[p] < 0 {
+		panic(runtimeError("sync: negative WaitGroup counter"))
+	}
+	s.yield("wg.Add")
+}
+
+func (s *coopSched) wgWait(p *value) {
+	s.block("WaitGroup.Wait", func() bool { return s.wg[p] == 0 })
+}
+
+func condLocker(p *value) *value {
+	st := (*p).(structure)
+	for _, f := range st {
+		if itf, ok := f.(iface); ok && itf.t != nil {
+			if lp, ok := itf.v.(*value); ok {
+				return lp
+			}
+		}
+	}
+	panic(engineError("sync.Cond without a recognisable Locker"))
+}
+
+func (s *coopSched) condWait(p *value) {
+	self := s.cur
+	l := condLocker(p)
+	s.unlock(l, false)
+	s.condWaiters[p] = append(s.condWaiters[p], self)
+	delete(s.signaled, self)
+	s.block("Cond.Wait", func() bool { return s.signaled[self] })
+	delete(s.signaled, self)
+	s.lock(l, false)
+}
+
+func (s *coopSched) condSignal(p *value, all bool) {
+	ws := s.condWaiters[p]
+	if len(ws) == 0 {
+		return
+	}
+	if all {
+		for _, t := range ws {
+			s.signaled[t] = true
+		}
+		s.condWaiters[p] = nil
+	} else {
+		s.signaled[ws[0]] = true
+		s.condWaiters[p] = ws[1:]
+	}
+	s.yield("cond.Signal")
+}
+
+func (s *coopSched) send(c *chanT, v value) {
+	if c == nil {
+		s.block("send on nil channel", func() bool { return false })
+	}
+	s.yield("chan send")
+	if c.closed {
+		panic(runtimeError("send on closed channel"))
+	}
+	if c.cap == 0 {
+		// rendezvous: hand the value over and wait until it is taken
+		s.block("chan send", func() bool { return len(c.buf) == 0 || c.closed })
+		c.buf = append(c.buf, v)
+		s.block("chan send (rendezvous)", func() bool { return len(c.buf) == 0 || c.closed })
+		return
+	}
+	s.block("chan send", func() bool { return len(c.buf) < c.cap || c.closed })
+	if c.closed {
+		panic(runtimeError("send on closed channel"))
+	}
+	c.buf = append(c.buf, v)
+}
+
+func (s *coopSched) recv(c *chanT) (value, bool) {
+	if c == nil {
+		s.block("receive on nil channel", func() bool { return false })
+	}
+	s.yield("chan recv")
+	s.block("chan recv", func() bool { return len(c.buf) > 0 || c.closed })
+	if len(c.buf) > 0 {
+		v := c.buf[0]
+		c.buf = c.buf[1:]
+		return v, true
+	}
+	return nil, false
+}
+
+func (s *coopSched) closed(c *chanT) { s.yield("close") }
+
+func (s *coopSched) spawn(i *interpreter, instr *ssa.Go, fn value, args []value) {
+	t := &thread{id: len(s.threads), wake: make(chan struct{}, 1)}
+	if len(s.threads) > 32 {
+		panic(engineError("more than 32 goroutines on one path"))
+	}
+	s.threads = append(s.threads, t)
+	go func() {
+		<-t.wake
+		if s.dead {
+			return
+		}
+		defer func() {
+			p := recover()
+			t.done = true
+			if _, isAbort := p.(schedAbort); isAbort || s.dead {
+				return
+			}
+			if p != nil {
+				// a panic in a goroutine ends the program: re-raise it in main
+				s.abort = p
+				main := s.threads[0]
+				s.cur = main
+				main.wake <- struct{}{}
+				return
+			}
+			// normal end of the goroutine: give the baton to an enabled thread
+			var cands []*thread
+			for _, o := range s.threads {
+				if s.enabled(o) {
+					cands = append(cands, o)
+				}
+			}
+			if len(cands) == 0 {
+				s.abort = fatalError("deadlock: all goroutines are blocked after a goroutine ended")
+				main := s.threads[0]
+				s.cur = main
+				main.wake <- struct{}{}
+				return
+			}
+			var next *thread
+			func() {
+				// choosing may itself abort the path (engine errors): surface it in main
+				defer func() {
+					if q := recover(); q != nil {
+						s.abort = q
+						next = s.threads[0]
+					}
+				}()
+				next = cands[s.m.choose(len(cands))]
+			}()
+			s.cur = next
+			next.wake <- struct{}{}
+		}()
+		s.cur = t
+		call(i, nil, instr.Pos(), fn, args)
+	}()
+	s.yield("go")
+}
+
+func (s *coopSched) doSelect(fr *frame, instr *ssa.Select) value {
+	s.yield("select")
+	type cs struct {
+		c    *chanT
+		send bool
+		v    value
+	}
+	cases := make([]cs, len(instr.States))
+	for k, st := range instr.States {
+		cases[k].c, _ = fr.get(st.Chan).(*chanT)
+		cases[k].send = st.Dir == types.SendOnly
+		if st.Send != nil {
+			cases[k].v = fr.get(st.Send)
+		}
+	}
+	readyList := func() []int {
+		var r []int
+		for k, c := range cases {
+			if c.c == nil {
+				continue
+			}
+			if c.send {
+				if c.c.closed || len(c.c.buf) < c.c.cap {
+					r = append(r, k)
+				}
+			} else if len(c.c.buf) > 0 || c.c.closed {
+				r = append(r, k)
+			}
+		}
+		return r
+	}
+	rl := readyList()
+	if len(rl) == 0 && instr.Blocking {
+		s.block("select", func() bool { return len(readyList()) > 0 })
+		rl = readyList()
+	}
+	chosen := -1
+	var recvV value
+	recvOk := false
+	if len(rl) > 0 {
+		chosen = rl[s.m.choose(len(rl))]
+		c := cases[chosen]
+		if c.send {
+			if c.c.closed {
+				panic(runtimeError("send on closed channel"))
+			}
+			c.c.buf = append(c.c.buf, c.v)
+		} else if len(c.c.buf) > 0 {
+			recvV, recvOk = c.c.buf[0], true
+			c.c.buf = c.c.buf[1:]
+		}
+	}
+	r := tuple{chosen, recvOk}
+	for k, st := range instr.States {
+		if st.Dir == types.RecvOnly {
+			var v value
+			if k == chosen && recvOk {
+				v = recvV
+			} else {
+				v = zero(st.Chan.Type().Underlying().(*types.Chan).Elem())
+			}
+			r = append(r, v)
+		}
+	}
+	return r
+}
+
+var _ = token.NoPos
